@@ -521,6 +521,11 @@ func c09Line(work, line string, yml bool, tag string, lineNo int, r *rng, every,
 					return
 				}
 			}
+			cropLoc := hermes.VerifGetCropLocal(&shadow)
+			kPrev := k1 - 1
+			if kPrev < 0 {
+				kPrev = 0
+			}
 			tendsum := reflect.ValueOf(shadow).FieldByName("tendsum").Float()
 			maxup := c09Maxup(ct, g.PHYLLO, tendsum)
 			wurz := g.WURZ
@@ -750,6 +755,9 @@ func c09Line(work, line string, yml bool, tag string, lineNo int, r *rng, every,
 				// pool inputs of the day (RootDistModel.pools_after): organic pools of the rooted layers before / after the call
 				"p_n": poolN, "p_nfos0": hxs(pre.NFOS[:poolN]), "p_naos0": hxs(pre.NAOS[:poolN]), "p_o_nfos": hxs(g.NFOS[:poolN]), "p_o_naos": hxs(g.NAOS[:poolN]),
 				"p_rest_same": poolRestSame,
+				// crop coefficient / BBCH (DevModel.fkc_of, bbch_of): tabulated values of the stage reached and the one before, observed FKC / BBCH
+				"k_kcini": hx(cropLoc.Kcini), "k_kc": hx(cropLoc.Kc[k1]), "k_kcprev": hx(cropLoc.Kc[kPrev]), "k_end": hx(shadow.ENDBBCH[k1]), "k_endprev": hx(shadow.ENDBBCH[kPrev]),
+				"k_o_fkc": hx(g.FKC), "k_o_bbch": g.BBCH,
 				// reduk
 				"gehob": hx(pre.GEHOB), "gehmin": hx(g.GEHMIN), "ngefkt1": pre.NGEFKT == 1, "earg": hx(eArg), "e": hx(eVal), "reduk0": hx(pre.REDUK), "o_reduk": hx(g.REDUK),
 				// organs
